@@ -50,7 +50,7 @@ func height(s *Sch) int {
 		up(it)
 	}
 	switch s.K {
-	case "opt", "nul", "id":
+	case "opt", "nul", "id", "lazy":
 		return h
 	}
 	return h + 1
@@ -113,7 +113,7 @@ func (g *gen) fromPool(depth int) *Sch {
 // withID: S.Meta(GlobalMeta{ID}) — the ID is a function of the node's text, so equal IDs name equal schemas.
 func (g *gen) withID(s *Sch) *Sch {
 	switch s.K {
-	case "int", "opt", "nul", "id":
+	case "int", "opt", "nul", "id", "lazy":
 		return s // the integer types have no Meta method
 	}
 	h := fnv.New32a()
@@ -319,6 +319,27 @@ func (g *gen) members(depth, n int) []*Sch {
 		ms = append(ms, g.schema(depth-1, false))
 	}
 	g.force = saved
+	// members that overlap on null (Nilable member, Nil(), Any()): what a Nilable()/Optional() wrapper AROUND the
+	// union / xor adds is then no longer disjoint from what the members admit
+	if g.r.Chance(25) {
+		i := g.r.Intn(len(ms))
+		switch g.r.Intn(4) {
+		case 0:
+			ms[i] = &Sch{K: "nil"}
+		case 1:
+			ms[i] = &Sch{K: "any"}
+		default:
+			if ms[i].K != "nul" && ms[i].K != "opt" {
+				ms[i] = &Sch{K: "nul", Elem: ms[i]}
+			}
+		}
+		if g.r.Chance(30) {
+			j := g.r.Intn(len(ms))
+			if ms[j].K != "nul" && ms[j].K != "opt" {
+				ms[j] = &Sch{K: "nul", Elem: ms[j]}
+			}
+		}
+	}
 	return ms
 }
 
@@ -397,6 +418,7 @@ func (g *gen) schema(depth int, top bool) *Sch {
 		return g.wrap(s, 0, 10)
 	}
 	var s *Sch
+	unionLike := false
 	switch g.r.Intn(14) {
 	case 0, 1, 2, 3, 4:
 		s = &Sch{K: "obj", Mode: hx.Pick(g.r, []string{"strip", "strip", "strict", "loose"})}
@@ -479,13 +501,29 @@ func (g *gen) schema(depth int, top bool) *Sch {
 		}
 	case 10, 11:
 		s = &Sch{K: "union", Items: g.members(depth, 2+g.r.Intn(2))}
+		unionLike = true
 	case 12:
 		s = &Sch{K: "xor", Items: g.members(depth, 2+g.r.Intn(2))}
+		unionLike = true
 	default:
 		s = &Sch{K: "and", Items: g.andMembers(depth)}
 	}
 	if g.r.Chance(9) {
 		s = g.withID(s)
+	}
+	if unionLike && g.r.Chance(30) {
+		// Nilable / Optional∘Nilable (Nullish) / Optional wrappers around a union-like schema
+		switch g.r.Intn(4) {
+		case 0:
+			if top {
+				return &Sch{K: "opt", Elem: s}
+			}
+			return &Sch{K: "nul", Elem: s}
+		case 1:
+			return &Sch{K: "opt", Elem: &Sch{K: "nul", Elem: s}}
+		default:
+			return &Sch{K: "nul", Elem: s}
+		}
 	}
 	if top {
 		return g.wrap(s, 5, 10)
@@ -669,6 +707,14 @@ func (g *gen) cands(s *Sch, depth int) []*J {
 		return append([]*J{out[0], jNull()}, out[1:]...)
 	case "id":
 		return g.cands(s.Elem, depth)
+	case "lazy":
+		// the inner schema's candidates, and values of every other JSON kind (a lazy schema whose inner schema is
+		// never consulted accepts them all)
+		out := append([]*J{}, g.cands(s.Elem, depth)...)
+		if len(out) > 40 {
+			out = out[:40]
+		}
+		return append(out, jNull(), jStr("zz"), jInt(3), jQ(6), jBool(true), jArr(), jArr(jInt(1)), jObj(), jObj().with("a", jInt(1)))
 	case "obj":
 		base := jObj()
 		for _, f := range s.Fields {
@@ -882,6 +928,7 @@ func (g *gen) countFeatures(out *hx.Out, s *Sch) {
 func str(cs ...Ck) *Sch           { return &Sch{K: "str", Cks: cs} }
 func intS(k string, cs ...Ck) *Sch { return &Sch{K: "int", Kind: k, Cks: cs} }
 func opt(s *Sch) *Sch             { return &Sch{K: "opt", Elem: s} }
+func lazy(fl string, s *Sch) *Sch { return &Sch{K: "lazy", Kind: fl, Elem: s} }
 func nul(s *Sch) *Sch             { return &Sch{K: "nul", Elem: s} }
 func obj(mode string, fs ...Field) *Sch {
 	return &Sch{K: "obj", Mode: mode, Fields: fs}
@@ -921,5 +968,24 @@ func corpusSchemas() []*Sch {
 		&Sch{K: "tup", Items: []*Sch{opt(nul(str())), {K: "bool"}, opt(nul(str()))}},
 		&Sch{K: "tup", Rest: &Sch{K: "bool"}, Items: []*Sch{opt(nul(str())), opt(nul(str()))}},
 		&Sch{K: "arr", Rest: opt(nul(str())), Items: []*Sch{}},
+		// wrappers around union-like schemas whose members overlap on null
+		nul(&Sch{K: "xor", Items: []*Sch{nul(str()), {K: "bool"}}}),
+		nul(&Sch{K: "xor", Items: []*Sch{{K: "nil"}, str()}}),
+		nul(&Sch{K: "union", Items: []*Sch{nul(str()), {K: "bool"}}}),
+		opt(nul(&Sch{K: "xor", Items: []*Sch{{K: "bool"}, {K: "any"}}})),
+		nul(&Sch{K: "xor", Items: []*Sch{str(), {K: "bool"}}}),
+		nul(&Sch{K: "union", Items: []*Sch{str(), {K: "nil"}, {K: "bool"}}}),
+		// Lazy: the inner schema's document; Parse consults the inner schema only for eight Go result types
+		lazy("--", obj("strict", Field{"a", str()})),
+		lazy("--", intS("i8")),
+		lazy("--", &Sch{K: "slice", Elem: &Sch{K: "bool"}}),
+		lazy("--", str(Ck{Op: "min", N: 2})),
+		lazy("-n", &Sch{K: "union", Items: []*Sch{str(), {K: "bool"}}}),
+		lazy("--", lazy("--", str(Ck{Op: "min", N: 2}))),
+		lazy("--", lazy("o-", str(Ck{Op: "min", N: 2}))),
+		lazy("o-", str()),
+		lazy("on", intS("int")),
+		lazy("--", nul(str())),
+		lazy("--", opt(nul(intS("int")))),
 	}
 }
